@@ -59,10 +59,61 @@ theorem fftGrid_emb (fs : List (Fld K)) (W0 W1 S0 S1 : Int) (s : Option (Arr K))
     apply emb_zero_outside f W0 W1 (hfit f hf)
     intro hc; apply hin
     rw [Extent.inb_iff, arrayExtent_eq] at hc ⊢; simp only at hc ⊢; omega
+
+theorem wavefrontField_shape (fs : List (Fld K)) (W0 W1 : Int) :
+    (wavefrontField 1 fs W0 W1).s0 = W0 ∧ (wavefrontField 1 fs W0 W1).s1 = W1 :=
+  foldInsert_shape fs ({ s0 := W0, s1 := W1, get := fun _ _ => (0 : K) } : Arr K) (1 : K)
+
+/-- `Wavefront.field` of a wavefront whose fields lie on its canvas, as a field at offset 0, is the total embedding of the
+fields on the whole plane -/
+theorem canvas_emb (fs : List (Fld K)) (W0 W1 : Int) (hfit : ∀ f ∈ fs, f.within W0 W1) (r c : Int) :
+    (Fld.mk (wavefrontField 1 fs W0 W1) 0 0).emb r c = sumList fs (fun f => f.emb r c) := by
+  rw [sumList_eq_listSum]
+  unfold Fld.emb embAt
+  simp only [Fld.extent, (wavefrontField_shape fs W0 W1).1, (wavefrontField_shape fs W0 W1).2]
+  by_cases hin : (arrayExtent W0 W1 0 0).inb r c = true
+  · simp only [hin, if_true]
+    have hin' := hin
+    rw [Extent.inb_iff, arrayExtent_eq] at hin'; simp only at hin'
+    rw [arrayExtent_eq]; simp only
+    rw [wavefrontField_get fs W0 W1 _ _ (by omega) (by omega)]
+    congr 1
+    apply List.map_congr_left; intro f _
+    congr 1 <;> omega
+  · simp only [hin, Bool.false_eq_true, if_false]
+    symm
+    apply List.sum_eq_zero
+    intro x hx
+    obtain ⟨f, hf, rfl⟩ := List.mem_map.mp hx
+    exact emb_zero_outside f W0 W1 (hfit f hf) r c hin
 end
 
 section
 variable {K R : Type} [Add R] [Sub R] [Mul R] [Neg R] [RealLike R] [CommRing K] [CxLike K R]
+
+/-- **`dft2` of `Wavefront.field` = sum over the fields of `dft2` of each field with its offset** -/
+theorem dft2_canvas (fs : List (Fld K)) (W0 W1 : Int) (hWp : 0 < W0 ∧ 0 < W1) (hfit : ∀ f ∈ fs, f.within W0 W1)
+    (hpos : ∀ f ∈ fs, 0 < f.arr.s0 ∧ 0 < f.arr.s1)
+    (αr αc : R) (M N : Int) (shr shc : R) (un : Bool) (u v : Int) :
+    (dft2 (wavefrontField 1 fs W0 W1) αr αc M N shr shc 0 0 un).get u v =
+      (fs.map fun f => (dft2 f.arr αr αc M N shr shc f.o0 f.o1 un).get u v).sum := by
+  have hfalse : (dft2 (wavefrontField 1 fs W0 W1) αr αc M N shr shc 0 0 false).get u v =
+      sumList fs (fun f => (dft2 f.arr αr αc M N shr shc f.o0 f.o1 false).get u v) := by
+    obtain ⟨R0, H, C0, W, hbox⟩ := exists_box (Fld.mk (wavefrontField 1 fs W0 W1) 0 0 :: fs)
+    have hg := dft2_eq_boxDft (Fld.mk (wavefrontField 1 fs W0 W1) 0 0)
+      (by simp only [(wavefrontField_shape fs W0 W1).1, (wavefrontField_shape fs W0 W1).2]; exact hWp)
+      αr αc M N shr shc u v R0 H C0 W (hbox _ List.mem_cons_self)
+    simp only at hg
+    rw [hg, sum_dft2_eq_boxDft fs hpos αr αc M N shr shc u v R0 H C0 W (fun f hf => hbox f (List.mem_cons_of_mem _ hf))]
+    exact boxDft_congr _ _ (canvas_emb fs W0 W1 hfit) αr αc M N shr shc u v R0 H C0 W
+  cases un with
+  | false => rw [hfalse, sumList_eq_listSum]
+  | true =>
+    have hscale : ∀ (a : Arr K) (o0 o1 : Int), (dft2 a αr αc M N shr shc o0 o1 true).get u v
+        = (dft2 a αr αc M N shr shc o0 o1 false).get u v * CxLike.ofReal (RealLike.sqrt (RealLike.abs (αr * αc))) := by
+      intro a o0 o1; unfold dft2; simp
+    rw [hscale, hfalse, sumList_eq_listSum, ← List.sum_map_mul_right]
+    simp only [hscale]
 
 /-- **`dft2` of the padded grid = sum over the fields of `dft2` of each field with its offset** (any sampling ratios, output
 shape, shifts, either flag) -/
